@@ -14,6 +14,7 @@ pub mod c12;
 pub mod c13;
 pub mod c14;
 pub mod c16;
+pub mod c17;
 pub mod c18;
 pub mod c20;
 
@@ -45,6 +46,7 @@ pub fn spec(id: &str) -> Option<CheckSpec> {
         "C13" => Some(c13::spec()),
         "C14" => Some(c14::spec()),
         "C16" => Some(c16::spec()),
+        "C17" => Some(c17::spec()),
         "C18" => Some(c18::spec()),
         "C20" => Some(c20::spec()),
         _ => None,
